@@ -2,14 +2,26 @@
   Props.C02 — property theorems for C02 (the rendered response is well-formed and type-safe whatever
   the subgraphs return).  Model: GqlVerif.Plan.Render (two-pass renderer, default options).
 
-  Proved so far (all for every response-plan tree and every JSON document):
+  Proved for every response-plan tree and every JSON document:
     • every_failure_is_reported / data_null_has_error : null propagation never happens silently
     • errors_only_grow
-  Stated, not yet proved (kept visible; currently covered by the differential run and the Go
-  oracles only): two_pass_agree_statement (the render pass never meets an error after a successful
-  pre-walk, i.e. the output is always a JSON value), welltyped_projects_statement.
+  Proved for every plan tree of the shape the planner produces (`wfRoot`, Plan.RenderSpec: a field value reads one key
+  of its parent, a list item reads the element itself, no later field writes a key an earlier field reads) and every
+  JSON document:
+    • two_pass_agree : the render pass never meets an error after a successful pre-walk
+    • response_is_always_a_value : `Resolve` always produces a JSON value for `data`
+    • rendered_data_type_safe : that value conforms to the plan (`Conforms`)
+    • object_keys_exactly_selected : a conforming object has exactly the response keys of its selected fields, in order
+    • wf_is_needed : without the shape hypothesis the statement is false (a concrete tree, kernel-evaluated)
+  Proved for every plan tree and every JSON document (no shape hypothesis):
+    • no_error_means_projection : a response without errors is the projection of the UNCHANGED subgraph data
+    • welltyped_projects : on plan-directed well-typed data (`WT`) there is no error, `data` is not null and is that projection
+  Not proved (differential run and Go oracles only): the PATH of each reported error is the response path of the
+  offending position; which ancestor is nulled (the nearest nullable one).
 -/
 import GqlVerif.Proofs.C02
+import GqlVerif.Proofs.C02Safe
+import GqlVerif.Proofs.C02Proj
 namespace GqlVerif.Props.C02
 open GqlVerif GqlVerif.Render
 
@@ -42,10 +54,91 @@ theorem data_null_has_error (root : Node) (data : Json) (h : (resolve root data)
     simp [he] at this
   · simp at h
 
-/-- the invariant that makes two-pass rendering sound (full statement; proof pending) -/
-def two_pass_agree_statement : Prop :=
-  ∀ (root : Node) (data : Json), (preNode root data {}).err = false →
-    (rndNode root (preNode root data {}).c []).isSome = true
+theorem wfRoot_shape {root : Node} (h : wfRoot root = true) :
+    wfNode root = true ∧ (root.reads = false ∨ root.path.length ≤ 1) := by
+  simp only [wfRoot, Bool.and_eq_true, Bool.or_eq_true, Bool.not_eq_true'] at h
+  refine ⟨h.2, ?_⟩
+  rcases h.1 with h1 | h1
+  · exact Or.inl h1
+  · right; simp [List.isEmpty_iff.mp h1]
+
+/-- **two_pass_agree** (∀ planner-shaped trees, ∀ data): the invariant that makes two-pass rendering sound — after a
+    pre-walk that did not fail upward, the render pass meets no error, and what it prints conforms to the plan. -/
+theorem two_pass_agree (root : Node) (data : Json) (hwf : wfRoot root = true)
+    (h : (preNode root data {}).err = false) :
+    ∃ v, rndNode root (preNode root data {}).c [] = some v ∧ Conforms root v [] := by
+  obtain ⟨h1, h2⟩ := wfRoot_shape hwf
+  exact node_ok root data {} h1 h2 h
+
+/-- **response_is_always_a_value** (∀ planner-shaped trees, ∀ data): whatever the subgraphs delivered, `data` of the
+    response is a JSON value (never the malformed output of a render pass that stopped half-way). -/
+theorem response_is_always_a_value (root : Node) (data : Json) (hwf : wfRoot root = true) :
+    (resolve root data).data.isSome = true := by
+  unfold resolve
+  simp only
+  split
+  · rfl
+  · rename_i herr
+    obtain ⟨v, hv, _⟩ := two_pass_agree root data hwf (by simpa using herr)
+    simp [hv]
+
+/-- **rendered_data_type_safe** (∀ planner-shaped trees, ∀ data): unless the whole response is `data: null`, the
+    rendered data conforms to the plan: null only at nullable nodes, scalars of the declared kind, declared and
+    accessible enum values, lists of conforming items, objects with exactly the selected keys. -/
+theorem rendered_data_type_safe (root : Node) (data : Json) (hwf : wfRoot root = true)
+    (hnn : (resolve root data).dataNull = false) :
+    ∃ v, (resolve root data).data = some v ∧ Conforms root v [] := by
+  unfold resolve at hnn ⊢
+  simp only at hnn ⊢
+  split
+  · rename_i herr; simp [herr] at hnn
+  · rename_i herr
+    exact two_pass_agree root data hwf (by simpa using herr)
+
+/-- **no_error_means_projection** (∀ trees, ∀ data): when no error is reported the pre-walk did not touch the data, so
+    `data` is the render pass (the projection through the selection) applied to what the subgraphs delivered. -/
+theorem no_error_means_projection (root : Node) (data : Json) (h : (resolve root data).errors = []) :
+    (resolve root data).dataNull = false ∧ (resolve root data).data = rndNode root data [] := by
+  unfold resolve at h ⊢
+  simp only at h ⊢
+  have hl : (preNode root data {}).st.errs.length = ({} : St).errs.length := by
+    split at h <;> simp_all
+  have herr := reports_err (preNode_reports root data {}) hl
+  have hc := preNode_nochange root data {} hl
+  simp [herr, hc]
+
+/-- **welltyped_projects** (∀ trees, ∀ data): on data that is well-typed for the plan (nulls only at nullable nodes, the
+    declared JSON kinds, declared accessible enum values, admissible `__typename`s) no error is reported, `data` is not
+    null and equals the projection of the subgraph data through the selection. -/
+theorem welltyped_projects (root : Node) (data : Json) (h : WT root data []) :
+    (resolve root data).errors = [] ∧ (resolve root data).dataNull = false ∧
+      (resolve root data).data = rndNode root data [] := by
+  have he : (resolve root data).errors = [] := by
+    have := wt_node root data {} h
+    unfold resolve
+    simp only
+    split <;> simpa using this
+  exact ⟨he, no_error_means_projection root data he⟩
+
+/-- the response keys a field list selects under a stack of runtime type names -/
+def selectedNames : Fields → List (Option String) → List String
+  | .nil, _ => []
+  | .cons name guard _ rest, tns => if skipField guard tns then selectedNames rest tns else name :: selectedNames rest tns
+
+/-- **object_keys_exactly_selected**: a conforming object has exactly the response keys of the fields that are not
+    skipped for the runtime type, in plan order — no key more, none less, none twice unless selected twice. -/
+theorem object_keys_exactly_selected : ∀ (fs : Fields) (kvs : List (String × Json)) (tns : List (Option String)),
+    ConformsFields fs kvs tns → kvs.map (·.1) = selectedNames fs tns
+  | .nil, kvs, tns, h => by simp only [ConformsFields] at h; simp [h, selectedNames]
+  | .cons name guard value rest, kvs, tns, h => by
+    simp only [ConformsFields] at h
+    simp only [selectedNames]
+    split
+    · rename_i hs; simp only [hs, if_true] at h; exact object_keys_exactly_selected rest kvs tns h
+    · rename_i hs
+      simp only [hs, if_false] at h
+      obtain ⟨x, r, rfl, _, hr⟩ := h
+      simp [object_keys_exactly_selected rest r tns hr]
 
 /-! Non-vacuity / witnesses on concrete trees (kernel-evaluated) -/
 
@@ -60,9 +153,29 @@ example : ((resolve listOfLists (.obj [("m", .arr [.arr [.num "1", .null]])])).e
 example : (resolve listOfLists (.obj [("m", .arr [.arr [.num "1", .num "2"]])])).data.map
     (· == .obj [("m", .arr [.arr [.num "1", .num "2"]])]) = some true := by decide
 
+/-- **wf_is_needed**: a tree in which a later field (a nullable object under key `a`) writes the key an earlier
+    field (a non-null custom scalar under the same key `a`) reads — not a shape the planner produces. The pre-walk
+    succeeds (the scalar saw an object, then the object was nulled), the render pass then finds null at a non-null scalar:
+    without the shape hypothesis `two_pass_agree` is false. -/
+def clashingKeys : Node :=
+  .object [] false "Query" "" [] [] false
+    (.cons "x" {} (.scalar .custom ["a"] false)
+      (.cons "y" {} (.object ["a"] true "T" "" [] [] false (.cons "z" {} (.scalar .string ["z"] false) .nil)) .nil))
+example : wfRoot clashingKeys = false := by decide
+example : (preNode clashingKeys (.obj [("a", .obj [("z", .null)])]) {}).err = false := by decide
+example : (resolve clashingKeys (.obj [("a", .obj [("z", .null)])])).data.isNone = true := by decide
+
+/-- non-vacuity of `welltyped_projects`: well-typed data for the nested-list tree -/
+example : WT listOfLists (.obj [("m", .arr [.arr [.num "1", .num "2"]])]) [] := by
+  simp [WT, WTFields, listOfLists, getPath, get1, skipField, typenameCheck, isAbstract, kindOk]
+
+/-- the trees of the other examples have the planner's shape, so the theorems apply to them -/
+example : wfRoot listOfLists = true := by decide
+
 def nonNullLeaf : Node :=
   .object [] false "Query" "" [] [] false (.cons "a" {} (.scalar .string ["a"] false) .nil)
 example : (resolve nonNullLeaf (.obj [("a", .null)])).dataNull = true := by decide
 example : (resolve nonNullLeaf (.obj [("a", .str "x")])).data.map (· == .obj [("a", .str "x")]) = some true := by decide
+example : wfRoot nonNullLeaf = true := by decide
 
 end GqlVerif.Props.C02
